@@ -172,7 +172,7 @@ func join(c *core.Ctx) error {
 	c.Set("join_cases", len(cases))
 	// quick tier: every tainted case and every case with a declared direction
 	// on at most ... are too many; replay a seeded sample plus all tainted ones
-	limit := 6000
+	limit := 2500
 	if !c.Quick() {
 		limit = 120000
 	}
